@@ -223,7 +223,7 @@ func HarnessC14Serve() {
 	reached := vhCount(t.calls, "send:established") > 0
 	if !reached {
 		vReach("c14:never-established")
-		vAssert(t.closed, "c14:failed-handshake-closes-the-connection")
+		vAssert(t.closed || t.down, "c14:failed-handshake-closes-the-connection")
 		vAssert(len(se.established) == 0, "c14:no-established-callback-for-failed-handshake")
 		vAssert(len(se.finished) == 0, "c14:no-finished-callback-for-failed-handshake")
 	} else {
@@ -234,10 +234,10 @@ func HarnessC14Serve() {
 			vAssert(se.established[0] == vhSID && se.finished[0] == vhSID, "c18:callbacks-carry-the-session-id")
 		}
 		vAssert(se.estBefore, "c18:established-callback-before-any-handler")
-		vAssert(t.closed, "c14:served-connection-is-closed-at-the-end")
+		vAssert(t.closed || t.down, "c14:served-connection-is-closed-at-the-end")
 		if se.hFailed {
 			vReach("c20:handler-failed-while-serving")
-			vAssert(vhCount(t.calls, "send:finished") == 1, "c20:handler-error-finishes-the-session")
+			vAssert(vhCount(t.calls, "send:finished") == 1 || t.down, "c20:handler-error-finishes-the-session")
 		}
 	}
 	vAssert(vThreadsLive() <= 0, "c14:no-goroutine-left-serving-the-connection")
